@@ -38,7 +38,7 @@ ROTS = [0.0, 30.0, 45.0, 90.0, 135.0, 180.0, 270.0, 360.0, 390.0, -30.0, -450.0,
 FLAGS = [(0, 0), (0, 1), (1, 0), (1, 1)]
 MAGS = [1e-3, 1.0, 1e5]
 STARTS = [(0.0, 0.0), (3.0, -2.0)]
-ENTRIES = ["arc", "path", "path-rel"]
+ENTRIES = ["arc", "path", "path-rel", "builder", "builder-second"]
 
 
 def fmt(x):
@@ -63,6 +63,19 @@ def make(svg, entry, start, rx, ry, rot, fa, fs, end):
         d = "M%s,%s a%s,%s %s %d,%d %s,%s" % (fmt(start[0]), fmt(start[1]), fmt(rx), fmt(ry), fmt(rot), fa, fs,
                                                fmt(dx), fmt(dy))
         return svg.Path(d)[1]
+    if entry == "builder":
+        # the programmatic builder the parser itself uses: Path().move(p).arc(rx, ry, rot, fa, fs, end)
+        p = svg.Path()
+        p.move(start)
+        p.arc(rx, ry, rot, fa, fs, end)
+        return p[1]
+    if entry == "builder-second":
+        # several arcs in ONE builder call (as line()/quad()/cubic() allow): the arc under test is the second one
+        p0 = (start[0] - 0.75 * (abs(rx) + abs(ry) + 1e-3), start[1] + 0.5 * (abs(rx) + abs(ry) + 1e-3))
+        p = svg.Path()
+        p.move(p0)
+        p.arc(2 * abs(rx) + 1e-3, abs(ry) + 2e-3, 20, 0, 1, start, rx, ry, rot, fa, fs, end)
+        return p[2]
     raise ValueError(entry)
 
 
